@@ -31,7 +31,7 @@ TxMsgs(s) == {[t |-> ty, txs |-> q] : ty \in {"txs", "pooled"}, q \in TxSeqs}
 EvSeqs == {<<k>> : k \in EvKinds} \cup {<<>>, <<"valid", "valid">>, <<"valid", "badsig">>, <<"badsig", "valid">>, <<"valid", "nosum">>, <<"future", "valid">>}
 EvMsgs(s) == {[t |-> "list", evs |-> q] : q \in EvSeqs} \cup Unknowns
 AddrSeqs == {<<k>> : k \in AddrKinds} \cup {<<>>, <<"good", "good2">>, <<"good", "good">>, <<"good", "badip">>, <<"badid", "good">>, <<"many">>}
-BcInits == {[sync |-> y, top |-> tp] : y \in BOOLEAN, tp \in {0, 1}}
+BcInits == {[sync |-> y, top |-> tp, rl |-> 0] : y \in BOOLEAN, tp \in {0, 1}}
 Big == 2000000000
 Max == 2147483647
 BcMsgs(s) == {[t |-> "statusreq"]}
@@ -68,6 +68,8 @@ Returns      == bad = ""                                   \* Receive returns: n
 \* a message that stops the peer leaves the reactor's state as it was, except for what the items BEFORE the
 \* offending one have legitimately added (evidence list: items are added in order)
 RejectedIsInert == [][hist'[Len(hist')].res = "stop" /\ rx # "ev" => st' = st]_vars
+\* block sync: no read lock on the reactor's mutex outlives Receive (so the aftermath of every message returns)
+BcMutexFree == rx = "bc" => (BcLockFree(st) /\ BcAftermath(st) = "ok")
 \* the evidence pool only ever takes evidence that verifies
 OnlyVerifiedEvidence == rx = "ev" => (st.pending => st.lh >= 1)
 
